@@ -192,7 +192,10 @@ def run(tier, seed):
             for sparse in (False, True):
                 for p in partitions(range(n)):
                     joins = [g for g in p if len(g) > 1]
-                    variants = [joins, [g[::-1] for g in joins][::-1], joins + joins[:1], [[g[0], x] for g in joins for x in g[1:]]]
+                    # chains listed so that a later pair bridges two earlier, so far disjoint pairs: [a,b],[c,d],...,[b,c],...
+                    bridged = [[g[i], g[i + 1]] for g in joins for i in range(0, len(g) - 1, 2)] + \
+                              [[g[i], g[i + 1]] for g in joins for i in range(1, len(g) - 1, 2)]
+                    variants = [joins, [g[::-1] for g in joins][::-1], joins + joins[:1], [[g[0], x] for g in joins for x in g[1:]], bridged]
                     for vi, jl in enumerate(variants):
                         if jl or vi == 0:
                             do(M0, [("merge", jl)], sparse, (n, sym, sparse, "m", str(jl)))
